@@ -16,7 +16,7 @@ def execute(trace):
 
 
 RULE = ('Each run generates a DSG spec (incl. zero selection choices, forced single-option choices, incompatibilities, '
-        'shared options, design-variable nodes, sometimes a connection choice) and obtains a processor with the FAST encoder '
+        'shared options, design-variable nodes) and obtains a processor with the FAST encoder '
         'the way production does - the complete analysis is killed by the time limiter at a drawn delivery point, or fails '
         'with an injected MemoryError - or by request; the whole declared space (<= 300 vectors) or a sample is decoded: '
         'every result is an R-sem-admitted architecture, every corrected vector decodes to itself, a second processor fed '
@@ -28,4 +28,4 @@ WALL_BUDGET = {'quick': 90.0, 'thorough': 1500.0}
 
 def jobs(tier, batch_seed):
     from simkit.driver import std_jobs
-    return std_jobs([('generate', 200000 if tier == 'thorough' else 4000)], batch_seed)
+    return std_jobs([('generate', 200000 if tier == 'thorough' else 12000)], batch_seed)
